@@ -40,6 +40,8 @@ ASSUME PrintT(ToJson([rates |-> [exc |-> Rate("exc", "d0"), rec |-> Rate("rec", 
                                  bes |-> [s \in Names |-> Rate("bes", s)], bcx |-> <<Rate("bcx", 1), Rate("bcx", 2), Rate("bcx", 3)>>]]))
 
 VARIABLES model, dens, temp, ne, te, nb,
+          zq,       \* beam CX: the excited beam metastable (2 or 3) whose CX coefficient is exactly zero at this point (0: none); its
+                    \* population still counts in the mean's normalisation
           flow,     \* beam models: do the plasma species move (per-species bulk velocities Vel) or rest
           mag,      \* every density (electrons, species, beam) is multiplied by 10^mag: the totals are homogeneous of degree 2
           prior     \* what the model object was bound to and evaluated with before the configuration under test:
@@ -47,7 +49,7 @@ VARIABLES model, dens, temp, ne, te, nb,
                     \* "point" (the same plasma, non-uniform, evaluated before at a point where every species has other positive
                     \* densities and temperatures), "mutated" (the same plasma object held other distributions / another composition
                     \* when the model was evaluated before; for beam models the beam geometry was changed in between)
-vars == <<model, dens, temp, ne, te, nb, prior, flow, mag>>
+vars == <<model, dens, temp, ne, te, nb, prior, flow, mag, zq>>
 MagExps == {0, -13, 9}          \* 1e10 m^-3 per unit: 2e-3 m^-3 ... 2e19 m^-3
 \* species temperatures pairwise distinct and distinct from T_e (3), so a coefficient evaluated at another species' temperature shows
 TempOf(s) == 3 + Idx(s)
@@ -66,6 +68,7 @@ Init == /\ model \in Models
         /\ nb \in (IF model \in {"bcx", "bes"} THEN {0, 4} ELSE {0})
         /\ flow \in (IF model \in {"bcx", "bes"} THEN BOOLEAN ELSE {FALSE})
         /\ prior \in (IF ne = 2 /\ te = 3 THEN PriorsOf(model) ELSE {"none"})      \* re-binding explored at the nominal electron state
+        /\ zq \in (IF model = "bcx" /\ prior = "none" /\ ~flow THEN {0, 2, 3} ELSE {0})
         /\ mag \in (IF ne = 2 /\ te = 3 /\ prior = "none" /\ ~flow THEN MagExps ELSE {0})
         /\ (model \in {"bcx", "bes"} => /\ ne = 2 /\ te = 3 /\ \A s \in Names : dens[s] >= 0 \/ dens[s] = Absent
                                         /\ \E s \in Names : dens[s] > 0 /\ Charge(s) > 0)
@@ -110,7 +113,8 @@ SumN   == SumS([s \in Names |-> N(s)], Ions)
 \* relative population of the excited beam metastable m (2, 3):  sum_i Z_i n_i k_(m,i) / sum_i Z_i n_i ; numerator over SumZN
 PopNum(m) == SumS([s \in Names |-> Charge(s) * N(s) * Rate("bmp", <<s, m>>)], Present)
 \* q = (q_1 + sum_m pop_m q_m) / (1 + sum_m pop_m), each excited state weighted by its own population
-QMean == <<Rate("bcx", 1) * SumZN + PopNum(2) * Rate("bcx", 2) + PopNum(3) * Rate("bcx", 3), SumZN + PopNum(2) + PopNum(3)>>
+BcxRate(m) == IF m = zq THEN 0 ELSE Rate("bcx", m)
+QMean == <<BcxRate(1) * SumZN + PopNum(2) * BcxRate(2) + PopNum(3) * BcxRate(3), SumZN + PopNum(2) + PopNum(3)>>
 BeamTotal ==
   CASE model = "bcx" -> IF nb = 0 \/ N("c6") = 0 \/ temp["c6"] = 0 THEN <<0, 1>> ELSE <<nb * N("c6") * QMean[1], QMean[2]>>
     [] model = "bes" -> <<nb * SumS([s \in Names |-> Charge(s) * N(s) * Rate("bes", s)], Present), 1>>
@@ -124,7 +128,7 @@ ZeroWhenNonPositive == (model \in {"exc", "rec", "tcx", "trp", "brems"} /\ (ne <
 NonNegative == (model \in {"exc", "rec", "tcx", "trp", "brems"} /\ ~Unspecified) => Total >= 0
 \* q lies between the smallest and largest coefficient (cross-multiplied)
 QBetween == (model = "bcx" /\ ~Raises /\ QMean[2] > 0) =>
-               /\ Rate("bcx", 1) * QMean[2] <= QMean[1] /\ QMean[1] <= Rate("bcx", 3) * QMean[2]
+               /\ (IF zq = 0 THEN Rate("bcx", 1) ELSE 0) * QMean[2] <= QMean[1] /\ QMean[1] <= Rate("bcx", 3) * QMean[2]
 BeamVanishes == (model \in {"bcx", "bes"} /\ nb = 0) => BeamTotal[1] = 0
 \* the totals are functions of the current binding only: nothing in the rules refers to what the model saw before
 \* (Total, BeamTotal and Raises do not mention prior; the harness evaluates the model under the prior binding first)
@@ -134,7 +138,7 @@ BeamVanishes == (model \in {"bcx", "bes"} /\ nb = 0) => BeamTotal[1] = 0
 \* homogeneity: every rule above is a sum of products of exactly two densities (n_e n_i, n_rec n_d, n_b n_i; the beam CX
 \* mean q is a ratio of sums of the same degree), so with all densities x 10^mag the total is Total x 10^(2 mag)
 Degree == 2
-EmitCase == PrintT(ToJson([model |-> model, mag |-> mag, total_exp |-> Degree * mag, prior |-> prior, flow |-> flow, frame |-> IF flow THEN "rotated" ELSE "aligned", vel |-> [s \in Names |-> IF flow THEN Vel(s) ELSE <<0, 0, 0>>], efac |-> [s \in Names |-> EFac(s)], dens |-> dens, temp |-> temp, ne |-> ne, te |-> te, nb |-> nb, raises |-> Raises,
+EmitCase == PrintT(ToJson([model |-> model, bcx_zero |-> zq, mag |-> mag, total_exp |-> Degree * mag, prior |-> prior, flow |-> flow, frame |-> IF flow THEN "rotated" ELSE "aligned", vel |-> [s \in Names |-> IF flow THEN Vel(s) ELSE <<0, 0, 0>>], efac |-> [s \in Names |-> EFac(s)], dens |-> dens, temp |-> temp, ne |-> ne, te |-> te, nb |-> nb, raises |-> Raises,
                            total |-> Total, unspecified |-> Unspecified, beam_total |-> BeamTotal,
                            needs |-> Needs, donors |-> Donors, hyd |-> Hyd,
                            species |-> Sp, zeff |-> <<SumZ2N, SumZN>>, nion |-> SumN]))
